@@ -310,15 +310,13 @@ impl<T: Qcow2IoOps> Qcow2Dev<T> {
 
             let res = futures::future::join_all(reads).await;
             for (exp, r) in lens.into_iter().zip(res) {
-                match r {
-                    Ok(r) => {
-                        s += r;
-                        if r != exp {
-                            break;
-                        }
-                    }
-                    Err(_) => break,
-                };
+                // a failed cluster read fails the whole request: a short
+                // count would look like a successful partial read
+                let r = r?;
+                s += r;
+                if r != exp {
+                    break;
+                }
             }
             s
         };
